@@ -135,16 +135,23 @@ Print Assumptions C10_hashws_digest_injective.
 
 (** ** submission (the "submit" stream of the check)
     Modelling fact: [_StepRecord._execute] passes the workspace as [cwd] to
-    [adapter.submit]; each back-end must make it the working directory of the
-    job it starts (the [cwd=] keyword of the launched process, or the [-D] /
-    [--chdir] / [-cwd] option of sbatch / bsub, or [jobspec.cwd] for Flux) and
-    stdout / stderr files are plain names relative to it.  [submit_ok] is the
-    monitor evaluated on what the REAL adapters hand to the (stubbed) process
-    layer / fake flux module for steps that vary every optional run key; of
-    the model it holds for every workspace string: *)
-Theorem C10_submit_in_workspace : forall (ws : str) (names : list str),
+    [adapter.submit]; each back-end must start a job (a submit that raises on a
+    legal, existing workspace starts none), make the workspace the working
+    directory of that job (the [cwd=] keyword of the launched process, or the
+    [-D] / [--chdir] / [-cwd] option of sbatch / bsub, or [jobspec.cwd] for
+    Flux), declare stdout / stderr targets (header [--output] / [--error] /
+    [-o] / [-e] lines, jobspec attributes) that resolve to files DIRECTLY in the
+    workspace -- plain names made from [step.name], the digest under --hashws,
+    exactly as [C10_writes_inside] states for scripts and local output -- and
+    point the launcher at the script that was written (for a shell=True command
+    line: the word a POSIX shell reads).  [submit_ok] is the monitor evaluated
+    on what the REAL adapters hand to the (stubbed, cwd-checking) process layer /
+    fake flux module for steps that vary every optional run key, workspaces with
+    the shell-special characters the sanitiser keeps and raw labels with '/',
+    "..", blanks under --hashws; of the model it holds for every workspace: *)
+Theorem C10_submit_in_workspace : forall (ws : str) (names : list str) (script : str),
   Forall (fun n => ~ In SLASH n /\ n <> [] /\ n <> dot /\ n <> dotdot) names ->
-  submit_ok (model_sobs ws names) = true.
+  submit_ok (model_sobs ws names script) = true.
 Proof. exact submit_model_ok. Qed.
 Print Assumptions C10_submit_in_workspace.
 
